@@ -26,4 +26,8 @@ CASES = [
      "edits": [(SM, "    subgraph_samples = [sorted(set(modes_from_counts(s))) for s in samples]", "    subgraph_samples = [list(set(modes_from_counts(s))) for s in samples]")]},
     {"id": "twin-shrink-two-steps", "expect": "silent",
      "edits": [(C, "            to_remove_index = degrees_min[\n                np.random.choice(np.where(weights == weights.min())[0])\n            ]", "            lightest = np.where(weights == weights.min())[0]\n            pick = np.random.choice(lightest)\n            to_remove_index = degrees_min[pick]")]},
+    {"id": "orbit-cardinality-no-fit-case", "expect": "fire", "key": "C19.exact",
+     "edits": [("apps/similarity.py", "    if len(orbit) > modes:\n        # an orbit with more non-zero entries than modes contains no samples\n        return 0\n", "")]},
+    {"id": "twin-orbit-fits-other-spelling", "expect": "silent",
+     "edits": [("apps/similarity.py", "    if len(orbit) > modes:\n        # an orbit with more non-zero entries than modes contains no samples\n        return 0\n", "    if not modes >= len(orbit):\n        return 0\n")]},
 ]
